@@ -632,3 +632,10 @@ func SymNat(name string, bits int) *saferith.Nat {
 func SymInt(name string, bits int) *saferith.Int {
 	return new(saferith.Int).SetBig(val(uniq(name)), bits)
 }
+
+func SelectBytes(c bool, a, b []byte) []byte {
+	if c {
+		return a
+	}
+	return b
+}
